@@ -395,6 +395,22 @@ func checkC15(tier string) int {
 			}
 		}
 	}
+	// an IDENTIFY body that claims, under every field name the peer record might be decoded
+	// from, to BE the other connection (its socket address is public: /nodes prints it)
+	for _, field := range []string{"remote_address", "RemoteAddress", "REMOTE_ADDRESS", "id", "Id", "peer_id", "lastUpdate", "last_update"} {
+		var val string
+		switch field {
+		case "lastUpdate", "last_update":
+			val = "0"
+		default:
+			val = `"127.0.0.1:30001"`
+		}
+		b := valid[:len(valid)-1] + `,"` + field + `":` + val + `}`
+		sp := string(nsqlookupd.LkIdentify(int32(len(b)), []byte(b)))[4:]
+		for _, tail := range []string{"", "UNREGISTER ta ca\n", "UNREGISTER ta\n", "UNREGISTER tc cc#ephemeral\n", "REGISTER tb\nUNREGISTER tb\n", "REGISTER zz\n", "BOGUS\n"} {
+			tcp(fmt.Sprintf("IDENTIFY claiming %s of another connection, then %q", field, tail), []byte("  V1"+sp+tail))
+		}
+	}
 	tcp("IDENTIFY twice", []byte("  V1"+ident+ident))
 	bodies := map[string]string{"valid": valid, "no broadcast_address": `{"hostname":"x","tcp_port":1,"http_port":2,"version":"1"}`, "tcp_port 0": `{"broadcast_address":"x","tcp_port":0,"http_port":2,"version":"1"}`,
 		"no http_port": `{"broadcast_address":"x","tcp_port":1,"version":"1"}`, "no version": `{"broadcast_address":"x","tcp_port":1,"http_port":2}`, "tcp_port string": `{"broadcast_address":"x","tcp_port":"1","http_port":2,"version":"1"}`,
